@@ -4,7 +4,7 @@
     [cn] / [ce] (the harness interns attribute values; here: any coding that determines both tuples / the bond label). *)
 From Coq Require Import List NArith ZArith Bool Arith Lia Permutation.
 From SK Require Import lib.Tok lib.LGraph lib.Mono model.C11_Model proof.C11_Aut proof.C11_Dedup proof.C11_Main.
-From SK Require Import model.C03_Model model.C04_Model proof.C03_Proof proof.C03_Glue proof.C03_Backward
+From SK Require Import model.C03_Model model.C04_Model model.C04_Reactor proof.C03_Proof proof.C03_Glue proof.C03_Backward
                        proof.C04_Glue proof.C04_Template proof.C04_Any proof.C04_Proof.
 Import ListNotations.
 Local Open Scope Z_scope.
@@ -12,9 +12,7 @@ Local Open Scope Z_scope.
 Section Codes.
   Variable cn : inode -> N.
   Variable ce : iedge -> N.
-  Definition tr_rule (t : its) : C11_Model.graph :=
-    LG (map (fun p => (fst p, (0%N, 0%N, cn (snd p)))) (gnodes t))
-       (map (fun e => let '(u, v, x) := e in (u, v, (0%N, ce x))) (gedges t)).
+  Local Notation tr_rule := (C04_Reactor.tr_rule cn ce).
 
   Lemma tr_rule_ids t : node_ids (tr_rule t) = node_ids t.
   Proof. unfold node_ids, tr_rule; simpl. rewrite map_map. reflexivity. Qed.
